@@ -42,7 +42,7 @@ CHECKS.update({
  "C20": dict(
     engine="cli_sim", level="exploration", design="DESIGN.md section 6",
     technique="deterministic simulation of the CLI process: in-memory VFS with an adversarial environment actor and I/O-fault injector scheduled at every VFS/stdout call boundary; API twin as reference model; real-subprocess fidelity cross-check",
-    text="Seeded search over argument vectors (grammar over five sub-commands and global options with values on both sides of every validator bound and eleven -f path states) executed by main() in-process on an in-memory file system, in three separately run batches: fault-free, races (another process creates a file/dir/symlink at the target or removes/chmods its parent at a chosen call boundary) and I/O errors/interrupts/crashes (ENOSPC after k bytes, EIO on write/close, EMFILE/EACCES on open, EPIPE/EIO on stdout write or flush, KeyboardInterrupt, process killed at a call boundary with only the file system surviving). Oracle: refused (status != 0, no wallet data on stdout, no new file) or served (status 0, output identical to json.dumps of the library API result for the same secret/network/account/interval, library-filtered under --paranoia, BIP44-shaped rows) or help; always: no inode owned by someone else is modified. One known finding (hardened address indexes for END > 2^31) is recorded, not repaired.",
+    text="Seeded search over argument vectors (grammar over five sub-commands and global options with values on both sides of every validator bound and eleven -f path states) executed by main() in-process on an in-memory file system, in three separately run batches: fault-free, races (another process creates a file/dir/symlink at the target or removes/chmods its parent at a chosen call boundary) and I/O errors/interrupts/crashes (ENOSPC after k bytes, EIO on write/close, EMFILE/EACCES on open, EPIPE/EIO on stdout write or flush, KeyboardInterrupt, process killed at a call boundary with only the file system surviving). Oracle: refused (status != 0, no wallet data on stdout, no new file) or served (status 0, output identical to json.dumps of the library API result for the same secret/network/account/interval, library-filtered under --paranoia, BIP44-shaped rows) or help; always: no inode owned by someone else is modified. The hardened-address-index defect for END > 2^31 found by this check was first a known finding and is now repaired (ecd3cb0); no open finding.",
     note="Trusted: VFS models the Linux semantics the CLI can observe for a non-root user (fault-free subset cross-checked against real `python -m btc_hd_wallet` subprocesses: 8 vectors per quick run, 48 per thorough run); exit-status mapping of in-process main(); the API twin is the library itself (functional correctness of generate() is C06)."),
 })
 
